@@ -20,13 +20,20 @@ KOf(e) == [style |-> Configs[e.g].style, nids |-> e.nids, nmax |-> e.nmax, oid |
 VARIABLES l, g, tree
 \* l: next line; g: ghost of Keys.tla; tree: lines whose step broke the tree property
 
-NewObs(e) == ObsOf(e.g, LAMBDA i : e.cid[i], e.req, e.resp.ok, e.resp.v)
+NewObs(e) == ObsOf(ToString(e.g), LAMBDA i : e.cid[i], e.req, e.resp.ok, e.resp.v)
+             \cup NodeObsOf(Configs[e.g], e.req, e.resp.ok, e.resp.v)
+\* a new configuration: the channel part of the ghost starts afresh, the node-level part (whose
+\* slots are names shared between configurations) stays
+Carry(gh) == [ obs   |-> {p \in gh.obs : IsNodeSlot(p[1])},
+               slots |-> {sl \in gh.slots : IsNodeSlot(sl)},
+               kinds |-> {},
+               clash |-> gh.clash, coll |-> gh.coll ]
 
 \* C18c on one step, judged with the observations made so far (including this step's)
 TreeBadStep(e, obs) ==
   /\ e.req.op \in {"Provide", "Get"}
   /\ LET sl == e.pre.st[e.req.to]
-         Own(v, n) == <<<<e.g, e.cid[e.req.to], "sec", n>>, v>> \in obs IN
+         Own(v, n) == <<<<ToString(e.g), e.cid[e.req.to], "sec", n>>, v>> \in obs IN
      \/ (e.req.op = "Provide" /\
          TreeRefused(sl, Own, e.req, e.resp.ok, Len(e.resp.v) = 1))
      \/ TreeWrong(sl, Own, e.req, e.resp.v)
@@ -34,7 +41,7 @@ TreeBadStep(e, obs) ==
 Init == l = 1 /\ g = InitGhost /\ tree = {}
 Next == /\ l <= Len(Steps)
         /\ LET e == Steps[l]
-               g0 == IF l > 1 /\ Steps[l - 1].g # e.g THEN InitGhost ELSE g
+               g0 == IF l > 1 /\ Steps[l - 1].g # e.g THEN Carry(g) ELSE g
                g1 == Ghost(g0, NewObs(e)) IN
            /\ g' = g1
            /\ tree' = IF TreeBadStep(e, g1.obs) THEN tree \cup {l} ELSE tree
@@ -44,6 +51,7 @@ Spec == Init /\ [][Next]_<<l, g, tree>>
 C18a == Inv_Stable(g)
 C18b == Inv_Distinct(g)
 C18c == tree = {}
+C18d == Inv_Node(g)
 
 \* error traces show the line and the findings, not the whole ghost (it holds every key seen)
 TraceAlias == [l |-> l, clash |-> g.clash, coll |-> g.coll, tree |-> tree]
@@ -52,7 +60,7 @@ TraceAlias == [l |-> l, clash |-> g.clash, coll |-> g.coll, tree |-> tree]
 \* conformance of every step with the specification (global pass, reported)
 AllObs == UNION {NewObs(Steps[i]) : i \in DOMAIN Steps}
 TreeName(e, v, n) ==
-  LET js == {j \in 1..Len(e.cid) : <<<<e.g, e.cid[j], "sec", n>>, v>> \in AllObs} IN
+  LET js == {j \in 1..Len(e.cid) : <<<<ToString(e.g), e.cid[j], "sec", n>>, v>> \in AllObs} IN
   IF js = {} THEN "?" ELSE IdName(CHOOSE j \in js : TRUE)
 AbsSlots(e, sl) == [k \in 1..Len(sl) |-> [t |-> TreeName(e, sl[k][1], sl[k][2]), n |-> sl[k][2]]]
 ModelState(e, p) ==
@@ -71,7 +79,7 @@ SameVisible(a, b) ==
 ValOf(e, a) ==
   LET js == {j \in 1..Len(e.cid) : IdName(j) = a[2]} IN
   IF js = {} THEN {} ELSE
-  {p[2] : p \in {q \in AllObs : q[1] = <<e.g, e.cid[CHOOSE j \in js : TRUE], a[1], a[3]>>}}
+  {p[2] : p \in {q \in AllObs : q[1] = <<ToString(e.g), e.cid[CHOOSE j \in js : TRUE], a[1], a[3]>>}}
 
 Conforms(e) ==
   LET o == Step(ModelState(e, e.pre), e.req, KOf(e)) IN
